@@ -433,6 +433,8 @@ def finish(o: Outcome, level="proof"):
         if key in seen:
             continue
         seen.add(key)
+        if len(seen) > 12:          # enough distinct kinds printed; the rest is counted in the evidence
+            continue
         h = hashlib.sha256(json.dumps(replay, sort_keys=True).encode()).hexdigest()[:12]
         path = os.path.join(REPLAYS, f"{o.prop}-{h}.json")
         with open(path, "w") as f:
